@@ -929,12 +929,19 @@ def gen_commit_programs(r, n, big=0.05):
         size = {"none": None, "eq": n_d, "lt": max(0, n_d - r.pick([1, 2, 7])), "gt": n_d + r.pick([1, 5, 1000])}[size_kind]
         if size_kind == "lt" and n_d == 0:
             size_kind, size = "gt", 1
-        sri_kind = r.pick(["none", "ok", "wrong", "otheralgo", "multi_ok", "multi_wrong"])
+        sri_kind = r.pick(["none", "ok", "wrong", "otheralgo", "multi_ok", "multi_wrong", "multi_strong_unverified", "multi_strong_wrong"])
         other = [a for a in L.ALGOS if a != algo][0]
+        # a declaration that also names a STRONGER algorithm than the writer's (SRI: the strongest one governs)
+        stronger = L.ALGOS[L.ALGOS.index(algo) + 1:] if algo in L.ALGOS else []
+        if sri_kind.startswith("multi_strong") and not stronger:
+            sri_kind = "multi_ok"
+        strong = stronger[-1] if stronger else algo
         sri = {"none": None, "ok": L.sri_of(algo, d), "wrong": L.sri_of(algo, d + b"x"),
                "otheralgo": L.sri_of(other, d),
                "multi_ok": L.sri_of(algo, d + b"y") + " " + L.sri_of(algo, d),
-               "multi_wrong": L.sri_of(algo, d + b"y") + " " + L.sri_of(algo, d + b"z")}[sri_kind]
+               "multi_wrong": L.sri_of(algo, d + b"y") + " " + L.sri_of(algo, d + b"z"),
+               "multi_strong_unverified": L.sri_of(strong, d) + " " + L.sri_of(algo, d),
+               "multi_strong_wrong": L.sri_of(strong, d + b"other bytes") + " " + L.sri_of(algo, d)}[sri_kind]
         chunks = G.chunking(r, d)
         w, wops = w_stream(ids, fl, key if keyed else None, d, chunks, algo=algo, size=size, sri=sri)
         ops += wops
@@ -967,7 +974,9 @@ def mon_commit(rr):
         c = rclass(rr.impl[j])
         if c != "ok":
             pre_fail = (j, c); break
-    integrity_bad = t["sri_kind"] in ("wrong", "otheralgo", "multi_wrong")
+    # a declaration is checked by its strongest algorithm; when the writer did not hash with it the declaration
+    # cannot be verified and is rejected like one "of another algorithm" (also when its digests happen to be right)
+    integrity_bad = t["sri_kind"] in ("wrong", "otheralgo", "multi_wrong", "multi_strong_wrong", "multi_strong_unverified")
     size_bad = t["size_kind"] in ("lt", "gt")
     before, after = norm(rr.impl[t["before"]]), norm(rr.impl[t["after"]])
     if integrity_bad or size_bad:
@@ -1000,6 +1009,11 @@ def mon_commit(rr):
             want_sri = t["declared"] if t["declared"] else L.sri_of(t["algo"], t["data"])
             if m in (None, "ERR") or L.sri_parse(m["sri"]) != L.sri_parse(want_sri):
                 out.append(Failure("commit_not_mapped", t["after"], "successful keyed commit is not what the lookup returns", sig=sig))
+            if t["final_read"] < len(rr.impl):
+                fr = toks(rr.impl[t["final_read"]])
+                if fr[0] != "ok" or unhx(fr[1]) != t["data"]:
+                    out.append(Failure("committed_unreadable", t["final_read"],
+                                       f"the commit answered ok but the key does not read back the data ({' '.join(fr[:3])[:40]})", sig=sig))
     # C14: nothing is left in tmp
     tmp = norm(rr.impl[t["tmp"]])
     if tmp != "ok":
